@@ -354,6 +354,45 @@ impl Check for C03 {
                 ctx.report(&c, None, &oc, "large-file", format!("a syntax error after more than {} MiB must be reported before anything runs: exit {:?}, stdout {:?}, stderr {:?}", mib, o.code, String::from_utf8_lossy(&o.stdout), o.stderr_str().chars().take(200).collect::<String>()));
             }
         }
+        // (3c) the path a user takes: the file is read by the command itself.  Every string of
+        // length 0..2 (thorough: 0..3) over the alphabet and every truncation of the short corpus
+        // programs, each as written and with a final line break, after a first line that prints
+        let mut cli_cases: Vec<Case> = vec![];
+        let cli_len = ctx.tier.pick(2usize, 3usize);
+        let mut tails: Vec<String> = vec![];
+        for len in 0..=cli_len {
+            for idx in 0..n.pow(len as u32) {
+                let mut s = String::new();
+                let mut x = idx;
+                for _ in 0..len {
+                    s.push_str(SIGMA[x % n]);
+                    x /= n;
+                }
+                tails.push(s);
+            }
+        }
+        for (_n, s) in corp.iter().filter(|c| c.1.len() <= 60).take(ctx.tier.pick(8, 30)) {
+            for (i, _) in s.char_indices() {
+                tails.push(s[..i].to_string());
+            }
+        }
+        for t in tails {
+            for end in ["", "\n", "\n\n"] {
+                let mut c = Case::new(format!("print(\"S\")\n{}{}", t, end), T_PREFIXED, "read by the command itself".to_string());
+                c.no_ref = true;
+                c.cli_path = Some("case.sd".to_string());
+                c.nontrivial = true;
+                cli_cases.push(c);
+            }
+        }
+        let n_cli = cli_cases.len();
+        ctx.judge_cli(cli_cases, |c, r, o| {
+            let msg = o.stderr_str();
+            let msg = msg.strip_prefix("case.sd:").unwrap_or(&msg).trim_end_matches('\n').to_string();
+            let bo = Outcome { class: o.class(), stdout: o.stdout.clone(), msg };
+            self.oracle(c, r, &bo)
+        })?;
+        n_utf += n_cli as u64;
         use rayon::prelude::*;
         let results: Vec<Result<Option<String>, MachineryError>> = jobs
             .par_iter()
